@@ -15,7 +15,9 @@ Inductive kpiece :=
 | KGroup (i : Z)        (* {i} *)
 | KSrc | KLine          (* {src} {line} *)
 | KArr                  (* {@} *)
-| KName (n : bytes).    (* {name} *)
+| KName (n : bytes)     (* {name} *)
+| KEqLine (n : N).      (* {eq {line} n}: "1" when the line number is n, empty otherwise (an expression whose value
+                           depends on the POSITION of the line; used in ignore expressions) *)
 Definition ktmpl := list kpiece.
 
 Record mctx := { m_src : bytes; m_no : N; m_line : bytes; m_ix : list Z; m_names : list (bytes * Z) }.
@@ -28,6 +30,7 @@ Definition eval_piece (c : mctx) (p : kpiece) : result bytes :=
   | KLine => Ok (itoa (Z.of_N (m_no c)))
   | KArr => ctx_array (m_line c) (m_ix c)
   | KName n => get_key (m_src c) (m_no c) (m_names c) (m_line c) (m_ix c) n
+  | KEqLine n => Ok (if (m_no c =? n)%N then [49%N] else [])
   end.
 Fixpoint eval_tmpl (c : mctx) (t : ktmpl) : result bytes :=
   match t with
